@@ -60,10 +60,7 @@ fn start_server(exe: &str, work: &str, id: &str, cfg: &Cfg, upstream: SocketAddr
     std::fs::write(format!("{}/www/a.txt", dir), format!("{}|a", DIR_TAG)).unwrap();
     std::fs::write(format!("{}/www/sub/index.html", dir), format!("{}|index", DIR_TAG)).unwrap();
     std::fs::write(format!("{}/blacklist.txt", dir), cfg.list.join("\n")).unwrap();
-    let port = {
-        let l = TcpListener::bind(if cfg.v6 { "[::1]:0" } else { "127.0.0.1:0" }).map_err(|e| e.to_string())?;
-        l.local_addr().unwrap().port()
-    };
+    let port = hvcommon::net::free_port(if cfg.v6 { "::1" } else { "127.0.0.1" });
     let conf = format!(
         "server {{\n  address \"{}\"\n  port {}\n  threads 4\n  blacklist {{\n    file \"{}/blacklist.txt\"\n    mode \"{}\"\n  }}\n  log {{\n    level \"error\"\n    console false\n  }}\n{}  route /file {{\n    file \"{}/one.html\"\n  }}\n  route /dir/* {{\n    directory \"{}/www\"\n  }}\n  route /proxy/* {{\n    proxy \"{}\"\n  }}\n  route /redir {{\n    redirect \"https://example.com/elsewhere?cfg={}\"\n  }}\n}}\n",
         if cfg.v6 { "[::1]" } else { "127.0.0.1" },
